@@ -6,7 +6,7 @@ Open Scope string_scope.
 Open Scope list_scope.
 
 (* ---- dtypes ---- *)
-Definition all_dtypes : list dtype := torch_dtypes ++ [F8E4M3; F8E5M2].
+Definition all_dtypes : list dtype := torch_dtypes.
 Definition short_name (d : dtype) : string := substring 6 100 (dtype_str d).    (* without "torch." *)
 Definition dec_dtype (s : sexp) : option dtype :=
   match s with SA a => find (fun d => String.eqb (short_name d) a) all_dtypes | _ => None end.
@@ -201,7 +201,7 @@ Definition dec_opts (s : sexp) : option opts :=
 Definition enc_task (t : task) : sexp :=
   match t with
   | TPopulate p k _ => SL [SA "populate"; enc_list enc_str p; SA k]
-  | TWrite p _ => SL [SA "save-meta"; enc_list enc_str p; SA ""]
+  | TWrite p _ _ => SL [SA "save-meta"; enc_list enc_str p; SA ""]
   end.
 Definition enc_fsent (e : (list string * fname) * content) : sexp :=
   SL [enc_list enc_str (fst (fst e)); enc_fname (snd (fst e)); enc_content (snd e)].
@@ -252,7 +252,8 @@ Definition dispatch (cmd : string) (args : list sexp) : option sexp :=
       match dec_opts o, dec_bool inplace, dec_td t, dec_list dec_nat order with
       | Some o, Some ip, Some t, Some order =>
           Some (SL [enc_state (run_pool o ip t (permute order (tasks_of o t [])));
-                    enc_res enc_state (run_sequential o ip t)])
+                    enc_res enc_state (run_sequential o ip t);
+                    enc_res (fun _ => SA "state") (pool_call o ip t (permute order (tasks_of o t [])))])
       | _, _, _, _ => None
       end
   | "link", [o; inplace; t] =>
